@@ -3,7 +3,7 @@
 From Coq Require Import List ZArith NArith Bool String.
 From GrolGen Require Import Gen_Consts.
 From GrolModel Require Import Ast Lexer Parser Printer AstWf Frontend TokPrint.
-From GrolProofs Require Import Roundtrip_expr.
+From GrolProofs Require Import Roundtrip_expr Printer_newline.
 Import ListNotations.
 
 Definition no_numbers : numconv := mkConv (fun _ => None) (fun _ => None).
@@ -69,6 +69,28 @@ Theorem C03_fragment_fixpoint : forall conv e pts,
     end.
 Proof. exact fragment_format_fixpoint. Qed.
 
+(* third sentence of C03, proved for every tree: the normal-mode output of a program ends with exactly one
+   newline - it is o ++ "\n" where o is empty (the empty program) or ends with a byte that is not a newline.
+   Hypothesis lits_ok: no child is missing and the token literals that are printed verbatim (everything but
+   string contents, which are printed quoted) are non-empty and do not end with a newline - true of every
+   token the lexer produces; the harness checks the conclusion on every formatted program. *)
+Theorem C03_normal_output_ends_with_exactly_one_newline : forall allparens stmts out,
+  lits_ok (NStmts stmts) = true ->
+  print_program false allparens stmts = Some out ->
+  exists o, out = o ++ [10%N] /\ ((stmts = [] /\ o = []) \/ good_endb o = true).
+Proof. exact normal_output_ends_with_one_newline. Qed.
+
+(* non-vacuity: parsed programs satisfy lits_ok *)
+Example C03_lits_ok_examples :
+  forallb (fun s => match front_parse no_numbers false (src s) with
+                    | POk r => clean r && lits_ok (NStmts (pr_tree r))
+                    | _ => false end)
+    ["a"; "x = f(a, b) // t
+/* c */ y"; "if a {b} else {c}"; "func f(a){return a}"; "m = {a:b}; m[a]"; "s = ""x"" + ""
+"""; ""]%string = true.
+Proof. vm_compute. reflexivity. Qed.
+
+Print Assumptions C03_normal_output_ends_with_exactly_one_newline.
 Print Assumptions C03_fragment_fixpoint.
 Print Assumptions C03_refuted.
 Print Assumptions C03_format_is_a_function.
